@@ -2,23 +2,23 @@ SPECIFICATION MCSpec
 CONSTANTS
  N = 3
  T = 2
- NV = 1
+ NV = 2
  Cmds = {1, 2, 3}
  RepostAppends = TRUE
  Defect = "none"
  Honest = {1, 2}
- Args <- ArgsCore
- ByzReqs <- Byz3
- MaxByz = 1
- Faults <- FApi
- MaxFault = 1
- Tampers <- TAll
- MaxTamper = 1
+ Args <- ArgsSel
+ ByzReqs <- ByzNone
+ MaxByz = 0
+ Faults <- FNone
+ MaxFault = 0
+ Tampers <- TNone
+ MaxTamper = 0
  Plants <- PNone
  MaxPlant = 0
- Statuses <- SNone
- MaxChain = 0
- InitSt <- IActive
+ Statuses <- SAll
+ MaxChain = 1
+ InitSt <- IMixed
  Policy = "free"
 INVARIANTS Safety Robust
 PROPERTIES MCDeleteOnlyOwn MCRefusedNoEffect
